@@ -191,6 +191,7 @@ def gen_case(rng, tier, g):
                 # (not under a straddling iterator: MemorySource closes the
                 # buffer of an earlier writer when it is opened again, so
                 # releasing that writer raises - by design of that source)
+                'peek': rng.random() < 0.5,
                 'sink': rng.choice(['sim', 'sim', 'memory'])
                 if history not in ('sinkfail-full', 'partial-full-close',
                                    'partial-full-drop') else 'sim',
@@ -370,6 +371,11 @@ def _run_tee(e, case, log):
         try:
             for r in it:
                 got.append(canon_row(r))
+                if mem is not None and len(got) == 1 and case.get('peek'):
+                    # the consumer looks at the in-memory target while the
+                    # pass is under way (a progress display); what it sees
+                    # then says nothing about the end
+                    mem.getvalue()
         except Exception as ex:
             raise _Bad('tee-raised', '%s %s raised %s: %s after %d rows; '
                        'to%s writes the table without an error'
